@@ -3,7 +3,8 @@ import Ecal.Model.Parser
 Executable model of the interpreter core of krotik/ecal (`/repo/interpreter`, `/repo/scope`) at the
 CURRENT commit (all `fix:` commits applied): values with a heap (lists are Go slices: backing array +
 length, maps by reference), the scope tree with named child reuse, flattened access paths, `Validate`,
-operators, statements, user functions, try, builtins, one-pass string interpolation.
+operators, statements, user functions, try, builtins, one-pass string interpolation, objects
+(`new` with `addSuperClasses`, functions bound to `this` / `super`; added by C05).
 
 Only the TYPES `Node`/`Tok` of the parser model are used; the tree that is evaluated is the one the
 real Go parser produced (see `Ecal/Drivers/EvalCommon.lean`).  Embedded expressions of interpolating
@@ -74,6 +75,8 @@ structure FuncRec where
   name : String
   decl : Node
   declScope : Nat
+  this : Option Val := none        -- function context: the object a method was bound to by `new`
+  super : Option Val := none       -- list of the super templates' init functions (only on a bound `init`)
   deriving Inhabited
 
 /-- state of one `range` call site inside one instance-state map -/
@@ -758,6 +761,44 @@ def errObject : Sig → M Val
             (.str (str "source"), .opaque "source name"), (.str (str "trace"), .opaque "trace")]
   | _ => newMap [(.str (str "type"), .str (str "UnexpectedError")), (.str (str "error"), .opaque "error text")]
 
+/-- newFunc.addSuperClasses: first the super templates (depth first, in list order; elements that are
+    not maps are skipped), then every property of the template is copied into the object; a function
+    value is copied as a NEW function bound to the object (`this`), the one under "init" also gets the
+    list of the super templates' init functions (`super`, absent when nothing was collected).
+    Returns (init function of this template or null, the error variable of the Go code: each
+    recursive call overwrites it). -/
+def addSuperClasses : Nat → Nat → Nat → M (Val × Option Sig)
+  | 0, _, _ => throw Sig.fuel
+  | f+1, obj, tr => do
+    let tkvs ← getMap tr
+    let mut err : Option Sig := none
+    let mut initSuper : List Val := []
+    match mapLookup tkvs (.str (str "super")) with
+    | some (.list r l) =>
+      for s in (← getList r l) do
+        match s with
+        | .map sr =>
+          let (si, e) ← addSuperClasses f obj sr
+          err := e
+          initSuper := initSuper ++ [si]
+        | _ => pure ()
+    | some _ => err := some (plain "Property _super must be a list of super classes")
+    | none => pure ()
+    let mut initFn := Val.null
+    for (k, v) in tkvs do
+      match v with
+      | .func id =>
+        let fr := (← get).funcs.getD id default
+        let isInit := keyEq k (.str (str "init"))
+        let sup ← (if isInit && !initSuper.isEmpty then do pure (some (← newListLit initSuper)) else pure none)
+        let s ← get
+        set { s with funcs := s.funcs.push { fr with this := some (.map obj), super := sup } }
+        let nf := Val.func s.funcs.size
+        if isInit then initFn := nf
+        setMap obj (mapStore (← getMap obj) k nf)
+      | _ => setMap obj (mapStore (← getMap obj) k v)
+    pure (initFn, err)
+
 mutual
 def eval : Nat → Nat → Node → M Val          -- fuel, scope, node
   | 0, _, _ => throw Sig.fuel
@@ -1040,7 +1081,7 @@ def accessString : Nat → Nat → Node → List Nat → M (Option Node × List 
         let v ← eval f sc (← child c 0)
         res := res ++ [46] ++ (← sprint v)
         match kids[i+1]? with
-        | some (some nx) => if nx.name == "funccall" then throw (Sig.unsupported "call after index")
+        | some (some nx) => if nx.name == "funccall" then return (some n, res)   -- `a[i](args)`: ErrInvalidConstruct at this node
         | _ => pure ()
       else if c.name == "identifier" then
         res := res ++ [46] ++ (← tokOf c).val
@@ -1068,7 +1109,7 @@ def evalIdent : Nat → Nat → Node → M Val
       match callNode with
       | some cn =>
         -- a.b(args): only without a further chain in this model
-        let after := cn.children.drop 1
+        let after := (cn.children.dropWhile fun c => match c with | some c => c.name != "funccall" | none => true).drop 1
         if !after.isEmpty then throw (Sig.unsupported "chain after call")
         let (fv, _) ← getValue sc path
         callFunction f sc cn path fv
@@ -1097,11 +1138,11 @@ def callFunction : Nat → Nat → Node → List Nat → Val → M Val
         | .builtin _ => some fv
         | _ =>
           if pathS == "x.mark" then some (.builtin pathS)
-          else if ["len", "range", "raise", "add", "del", "concat", "type"].contains pathS then some (.builtin pathS)
-          else if ["new", "now", "rand", "timestamp", "dumpenv", "doc", "sleep", "addEvent", "addEventAndWait",
+          else if ["len", "range", "raise", "add", "del", "concat", "type", "new"].contains pathS then some (.builtin pathS)
+          else if ["now", "rand", "timestamp", "dumpenv", "doc", "sleep", "addEvent", "addEventAndWait",
                    "setCronTrigger", "setPulseTrigger"].contains pathS || (splitDots path).length > 1 then none
           else none
-    if (["new", "now", "rand", "timestamp", "dumpenv", "doc", "sleep", "addEvent", "addEventAndWait",
+    if (["now", "rand", "timestamp", "dumpenv", "doc", "sleep", "addEvent", "addEventAndWait",
          "setCronTrigger", "setPulseTrigger"].contains pathS) && target.isNone then
       throw (Sig.unsupported s!"builtin {pathS}")
     match target with
@@ -1197,6 +1238,26 @@ def runBuiltin : Nat → Nat → Node → String → List Val → M Val
         | .list r l, .list cr cl => cur ← appendVals cr cl (← getList r l)
         | _, _ => throw (plain "Parameter 1 should be a list")
       pure cur
+    | "new" =>
+      match args with
+      | .map tr :: rest => do
+        let obj ← newMap []
+        let oref := match obj with | .map r => r | _ => 0
+        let (_, err) ← addSuperClasses 200 oref tr
+        -- `init` of the finished object runs once with the remaining arguments; its caller scope is a
+        -- fresh empty root scope, its instance state a fresh map; its error replaces the earlier one
+        let err ← (match mapLookup (← getMap oref) (.str (str "init")) with
+          | some (.func id) => do
+            let ivs ← newScope "newfunc"
+            match ← attemptE (withFreshIs (runFunction f ivs id rest)) with
+            | .ok _ => pure none
+            | .error e => if e.isFatal then throw e else pure (some e)
+          | _ => pure err)
+        match err with
+        | some e => throw e
+        | none => pure obj
+      | _ :: _ => throw (plain "Parameter 1 should be a map")
+      | [] => throw (plain "Need a map as first parameter")
     | "raise" =>
       let ty ← (match args with
         | [] => pure "Runtime error"
@@ -1245,6 +1306,12 @@ def runFunction : Nat → Nat → Nat → List Val → M Val
     let params := (← child decl off).children
     let body ← child decl (off + 1)
     let fvs ← newScope s!"func: {fr.name}"
+    match fr.this with
+    | some t => setValue fvs (str "this") t
+    | none => pure ()
+    match fr.super with
+    | some sl => setValue fvs (str "super") sl
+    | none => pure ()
     let mut i := 0
     for p in params do
       let p ← (match p with | some p => pure p | none => throw Sig.panic)
